@@ -29,8 +29,9 @@ type c20Case struct {
 }
 
 const (
-	nclasses  = 4
-	nvariants = 3
+	nclasses    = 4
+	nvariants   = 3
+	nunhashable = 2 // literals nclasses*nvariants .. +1: rfc822.GetMessageHash fails for them
 )
 
 func newLits() *mstore.Literals {
@@ -39,6 +40,9 @@ func newLits() *mstore.Literals {
 		for c := 0; c < nclasses; c++ {
 			l.Add(c, v)
 		}
+	}
+	for k := 0; k < nunhashable; k++ {
+		l.AddUnhashable(k)
 	}
 	return l
 }
@@ -147,7 +151,7 @@ func observe(lits *mstore.Literals, o mstore.Op, ob mstore.Obs, before, after ms
 				v := violation{Kind: "append-rejected-not-recovered", Detail: fmt.Sprintf("%s: remote rejected, the bytes are in the recovery mailbox %d times (answer: %s %s)", o, n, ob.Class, ob.Text)}
 				if n == 0 {
 					for _, r := range ra.Rows {
-						if r.Lit >= 0 && r.Lit != o.Lit && lits.Class[r.Lit] == lits.Class[o.Lit] {
+						if r.Lit >= 0 && r.Lit != o.Lit && lits.Class[o.Lit] >= 0 && lits.Class[r.Lit] == lits.Class[o.Lit] {
 							v.D17 = true
 						}
 					}
@@ -230,7 +234,17 @@ func genOp(rng *common.Rng, d mstore.Dump, nlits int) mstore.Op {
 		if rng.Chance(0.2) {
 			l += nclasses * rng.Range(1, nvariants-1) // a near-duplicate
 		}
+		if rng.Chance(0.18) {
+			l = nclasses*nvariants + rng.Pick(nunhashable) // un-hashable
+		}
 		return l
+	}
+	allUIDs := func(m *mstore.MboxDump) []int {
+		var u []int
+		for _, r := range m.Rows {
+			u = append(u, r.UID)
+		}
+		return u
 	}
 	for {
 		switch x := rng.Pick(100); {
@@ -254,12 +268,20 @@ func genOp(rng *common.Rng, d mstore.Dump, nlits int) mstore.Op {
 			if rng.Chance(0.4) {
 				kind = "copy"
 			}
-			return mstore.Op{Kind: kind, Name: mstore.RecoveryName, UIDs: uids(rec), Name2: pick(normal), CreateOK: !rng.Chance(0.2), LabelOK: !rng.Chance(0.3), Sess: rng.Pick(2)}
+			u := uids(rec)
+			if rng.Chance(0.35) {
+				u = allUIDs(rec)
+			}
+			return mstore.Op{Kind: kind, Name: mstore.RecoveryName, UIDs: u, Name2: pick(normal), CreateOK: !rng.Chance(0.2), LabelOK: !rng.Chance(0.3), Sess: rng.Pick(2)}
 		case x < 66:
 			if rec == nil || len(rec.Rows) == 0 {
 				continue
 			}
-			return mstore.Op{Kind: "expunge", Name: mstore.RecoveryName, UIDs: uids(rec), RemoteOK: true, Sess: rng.Pick(2)}
+			u := uids(rec)
+			if rng.Chance(0.5) {
+				u = allUIDs(rec) // several recovered messages thrown away at once
+			}
+			return mstore.Op{Kind: "expunge", Name: mstore.RecoveryName, UIDs: u, RemoteOK: true, Sess: rng.Pick(2)}
 		case x < 76:
 			var with []*mstore.MboxDump
 			for i := range d.Mboxes {
@@ -334,8 +356,12 @@ func runOps(ops []mstore.Op) (*violation, error) {
 	defer w.Close()
 	var first *violation
 	_, _, err = mstore.Replay(w, ops, func(i int, o mstore.Op, ob mstore.Obs, before, aft mstore.Dump) bool {
-		if vs := observe(lits, o, ob, before, aft); len(vs) > 0 {
-			first = &vs[0]
+		for _, v := range observe(lits, o, ob, before, aft) {
+			if v.D17 {
+				continue
+			}
+			vv := v
+			first = &vv
 			return false
 		}
 		return true
@@ -350,7 +376,7 @@ func runC20(ctx *common.Ctx) error {
 	res := ctx.Res
 	rng := ctx.Rng
 	res.Rule = "wire histories of APPEND (remote accepting / rejecting / rejecting for size) with repeated and near-duplicate literals (same Subject/From/To/body, other Date/Message-Id/X-header), COPY/MOVE out of the recovery mailbox and between mailboxes with CreateMessage/AddMessagesToMailbox/MoveMessages failing on a schedule, expunge in the recovery mailbox, restart, and client commands aimed at the recovery mailbox; after every operation the bytes in all mailboxes are compared with the clauses of C20; non-trivial = distinct histories with at least one remote rejection"
-	nlits := nclasses * nvariants
+	nlits := nclasses*nvariants + nunhashable
 	var lines []string
 	id := 0
 	ncases := ctx.Budget(40, 500)
@@ -365,7 +391,7 @@ func runC20(ctx *common.Ctx) error {
 		}
 		ops := mstore.Shrink(cs.Ops, 40, func(c []mstore.Op) bool {
 			v2, err := runOps(c)
-			return err == nil && v2 != nil && v2.Kind == v.Kind && !v2.D17
+			return err == nil && v2 != nil && v2.Kind == v.Kind
 		})
 		res.Fail(v.Kind+" ["+mstore.OpsString(ops)+"]", v.Detail, cs)
 	}
@@ -448,6 +474,21 @@ func runC20(ctx *common.Ctx) error {
 		{Kind: "move", Name: mstore.RecoveryName, UIDs: []int{1}, Name2: "INBOX", CreateOK: true, LabelOK: true},
 		{Kind: "append", Name: "INBOX", Lit: 2, Remote: "fail"}, {Kind: "restart"}, {Kind: "append", Name: "INBOX", Lit: 2, Remote: "fail"},
 		{Kind: "append", Name: "INBOX", Lit: 3, Remote: "size"}, {Kind: "copy", Name: mstore.RecoveryName, UIDs: []int{2}, Name2: "INBOX", CreateOK: true, LabelOK: true}}); err != nil {
+		return err
+	}
+	// un-hashable literal (12, 13): rejected -> must be kept; rejected twice -> kept once (key = hash of the raw bytes)
+	if err := fixed([]mstore.Op{{Kind: "append", Name: "INBOX", Lit: 12, Remote: "fail"}, {Kind: "append", Name: "INBOX", Lit: 13, Remote: "fail"},
+		{Kind: "append", Name: "INBOX", Lit: 12, Remote: "fail"}, {Kind: "append", Name: "INBOX", Lit: 0, Remote: "fail"}, {Kind: "restart"},
+		{Kind: "append", Name: "INBOX", Lit: 0, Remote: "fail"}, {Kind: "append", Name: "INBOX", Lit: 13, Remote: "fail"},
+		{Kind: "append", Name: "INBOX", Lit: 12, Remote: "ok"}, {Kind: "move", Name: mstore.RecoveryName, UIDs: []int{1, 2}, Name2: "INBOX", CreateOK: true, LabelOK: true}}); err != nil {
+		return err
+	}
+	// un-hashable and ordinary message thrown away together, the ordinary one rejected again -> must be kept again
+	if err := fixed([]mstore.Op{{Kind: "append", Name: "INBOX", Lit: 12, Remote: "fail"}, {Kind: "append", Name: "INBOX", Lit: 1, Remote: "fail"},
+		{Kind: "expunge", Name: mstore.RecoveryName, UIDs: []int{1, 2}, RemoteOK: true}, {Kind: "append", Name: "INBOX", Lit: 1, Remote: "fail"},
+		{Kind: "append", Name: "INBOX", Lit: 13, Remote: "fail"}, {Kind: "append", Name: "INBOX", Lit: 2, Remote: "fail"},
+		{Kind: "move", Name: mstore.RecoveryName, UIDs: []int{3, 4, 5}, Name2: "INBOX", CreateOK: true, LabelOK: true},
+		{Kind: "append", Name: "INBOX", Lit: 2, Remote: "fail"}, {Kind: "append", Name: "INBOX", Lit: 1, Remote: "fail"}}); err != nil {
 		return err
 	}
 	// ---- random histories ----
